@@ -278,6 +278,7 @@ def run(ck):
                         calls=("getInitialAlignment",))
     calls = {}
     together = False
+    unread = []
     for pa in explore(ck, pc):
         strands_here = set()
         offered = [(e.term, e) for e in pa.events if e.kind == "yield"]
@@ -291,6 +292,8 @@ def run(ck):
             last = pa.events[-1] if pa.events else None
             offered += [(x, last) for x in pa.value[3][0][0][1]]
         for term, e in offered:
+            if not (term[0] == "app" and term[1].endswith("getInitialAlignment")) and term[0] not in ("c",):
+                unread.append(term)
             if term[0] == "app" and term[1].endswith("getInitialAlignment"):
                 a = dict(term[3])
                 strand = a.pop("reverseStrand", C(False))
@@ -298,6 +301,8 @@ def run(ck):
                 strands_here.add(strand)
         if strands_here == {C(False), C(True)}:
             together = True
+    if not together and unread:
+        raise AnalysisError(f"{pc.where}: a seed offered by the generator is not read as a getInitialAlignment(...) result: {T.show(unread[0])[:160]}")
     ck.judge(together, "C11.4", short(pc) + ":independent-strands", pc.where,
              "the two strands are offered independently of each other (there is a path on which both are seeds)",
              found="no path yields both strands" if not together else None)
